@@ -17,9 +17,11 @@ fn main() {
     let mut trace_path: Option<String> = None;
     let mut from = 0usize;
     let mut timeout = Duration::from_millis(10_000);
+    let mut fail_fast = false;
     let mut i = 2;
     while i < args.len() {
         match args[i].as_str() {
+            "--fail-fast" => fail_fast = true,
             "--trace" => {
                 trace_path = Some(args[i + 1].clone());
                 i += 1;
@@ -70,6 +72,9 @@ fn main() {
             let mut o = out.lock();
             writeln!(o, "{}", r).unwrap();
             o.flush().unwrap();
+        }
+        if fail_fast && (r["outcome"] != "followed" || r["tail"] == "hung") {
+            std::process::exit(3);
         }
         if r["tail"] == "hung" {
             // threads of this run cannot be recovered: the caller restarts us after this behaviour
@@ -147,6 +152,26 @@ fn replay_one(cfg: &Config, b: &Value, timeout: Duration) -> (Value, Vec<sched::
                                 "got": format!("unexpected thread(s) {:?}", stray)});
                 break;
             }
+        }
+    }
+    // blocked probe: the model says this parked thread cannot take its next step in this state
+    // (full queue, held lock, join of something still running): release it and see that it waits
+    if result["outcome"] == "followed" && b["probe"].is_object() {
+        let t = b["probe"]["t"].as_str().unwrap_or("?").to_string();
+        let ms = b["probe"]["ms"].as_u64().unwrap_or(300);
+        if s.is_parked(&t) && !s.has_pending(&t) {
+            s.release(&t, "-");
+            match s.wait_event(&t, Duration::from_millis(ms)) {
+                Some(e) => {
+                    result = json!({"outcome": "probe_failed", "step": steps.len(), "expected": b["probe"],
+                                    "got": e.to_json()});
+                }
+                None => {
+                    result["probe"] = json!("waited");
+                }
+            }
+        } else {
+            result["probe"] = json!("not parked");
         }
     }
     // let everything run to the end
